@@ -209,6 +209,21 @@ func tEq(a, b *Term) *Term {
 	if a.sort == SFP64 || a.sort == SFP32 {
 		return mkApp("fp.eq", SBool, a, b)
 	}
+	if a.sort == SStr && (a.op == "str.++" || a.op == "str.from_code" || a.op == "str.at" || a.isConst()) &&
+		(b.op == "str.++" || b.op == "str.from_code" || b.op == "str.at" || b.isConst()) {
+		if ca, ok := charSeq(a); ok {
+			if cb, ok := charSeq(b); ok {
+				if len(ca) != len(cb) {
+					return tFalse
+				}
+				eqs := make([]*Term, len(ca))
+				for i := range ca {
+					eqs[i] = tEq(ca[i], cb[i])
+				}
+				return tAnd(eqs...)
+			}
+		}
+	}
 	return mkApp("=", SBool, a, b)
 }
 
@@ -293,9 +308,60 @@ func tCmp(op string, a, b *Term) *Term {
 
 // ---- strings ----
 
+// charSeq returns the single-character terms of s when s is a sequence of
+// known length: constants, str.from_code and (in-bounds) str.at parts.
+// Each returned term is an Int code point term.
+func charSeq(s *Term) ([]*Term, bool) {
+	switch {
+	case s.isConst():
+		out := make([]*Term, len(s.s))
+		for i := 0; i < len(s.s); i++ {
+			out[i] = mkInt64(int64(s.s[i]))
+		}
+		return out, true
+	case s.op == "str.from_code":
+		return []*Term{s.args[0]}, true
+	case s.op == "str.at":
+		return []*Term{mkApp("str.to_code", SInt, s)}, true
+	case s.op == "str.++":
+		var out []*Term
+		for _, p := range s.args {
+			cs, ok := charSeq(p)
+			if !ok {
+				return nil, false
+			}
+			out = append(out, cs...)
+		}
+		return out, true
+	}
+	return nil, false
+}
+
+// codeStr is the inverse of str.to_code for a single character code term.
+func codeStr(c *Term) *Term {
+	if c.isConst() {
+		return mkStr(string([]byte{byte(c.n.Int64())}))
+	}
+	if c.op == "str.to_code" && c.args[0].op == "str.at" {
+		return c.args[0]
+	}
+	return mkApp("str.from_code", SStr, c)
+}
+
+func seqStr(cs []*Term) *Term {
+	parts := make([]*Term, len(cs))
+	for i, c := range cs {
+		parts[i] = codeStr(c)
+	}
+	return tConcat(parts...)
+}
+
 func tStrLen(a *Term) *Term {
 	if a.isConst() {
 		return mkInt64(int64(len(a.s)))
+	}
+	if a.op == "str.at" {
+		return mkInt64(1)
 	}
 	if a.op == "str.++" {
 		var sum *Term = mkInt64(0)
